@@ -188,5 +188,4 @@ def run(ctx):
 
 
 def replay(ctx, rp):
-    asmcheck.replay_case(ctx, rp["replay"])
-    return 0
+    return asmcheck.replay_case(ctx, rp["replay"])
